@@ -12,7 +12,8 @@
 From Coq Require Import NArith List Bool.
 From AV Require Import Generated.Table Spec.Io Spec.Strip Model.Base Model.Utf8parse Model.Parser Model.Strip
   Model.Stream Proofs.TableFacts Proofs.StripMachine Proofs.StripSim Proofs.StreamIo Proofs.Stream
-  Proofs.StreamAuto Generated.StreamFn Proofs.StreamGen Generated.AutoFn Proofs.AutoGen.
+  Proofs.StreamAuto Generated.StreamFn Proofs.StreamGen Generated.AutoFn Proofs.AutoGen
+  Model.Glue Generated.GlueFn Proofs.GlueGen.
 Import ListNotations.
 Local Open Scope N_scope.
 
@@ -143,3 +144,42 @@ Theorem c08_translated_accessors :
   g_as_lock_stdout cf (as_of m s w) = Some (as_of m s w) /\
   g_as_lock_stderr cf (as_of m s w) = Some (as_of m s w).
 Proof. exact translated_accessors. Qed.
+
+(* ---- the glue around AutoStream, translated too (Generated/GlueFn.v, tools/gen_fn_glue.py) -------------- *)
+
+(* `anstream::stdout()` / `anstream::stderr()` (lib.rs) are `AutoStream::auto` -- translated, c08_translated_new_is_model --
+   of the process's stdout handle / stderr handle, each of its own *)
+Theorem c08_translated_stdout_is_auto : forall cf so se, g_stdout cf so se = g_as_auto cf so.
+Proof. exact translated_stdout_is_auto. Qed.
+Theorem c08_translated_stderr_is_auto : forall cf so se, g_stderr cf so se = g_as_auto cf se.
+Proof. exact translated_stderr_is_auto. Qed.
+
+(* what `raw.is_terminal()` answers (the [raw_is_terminal cf] of the translation above) is, for the five streams backed by a
+   descriptor (Stdout, StdoutLock, Stderr, StderrLock, File), the polyfill asked about THAT stream; the in-memory and dyn
+   streams (dyn Write, + Send, + Send + Sync, Vec<u8>, Buffer) are never a terminal; `&T`, `&mut T`, `Box<T>` forward *)
+Theorem c08_translated_is_terminal_fd : forall f, In f g_is_terminal_fd_impls -> forall cf w, f cf w = raw_is_terminal cf w.
+Proof. exact translated_is_terminal_fd. Qed.
+Theorem c08_translated_is_terminal_mem : forall f, In f g_is_terminal_mem_impls -> forall cf w, f cf w = false.
+Proof. exact translated_is_terminal_mem. Qed.
+Theorem c08_translated_is_terminal_forward : forall cf tit w,
+  g_is_terminal_ref cf tit w = tit w /\ g_is_terminal_refmut cf tit w = tit w /\ g_is_terminal_box cf tit w = tit w.
+Proof. exact translated_is_terminal_forward. Qed.
+
+(* the deprecated in-memory raw stream `anstream::Buffer` behaves like the scripted writer of Spec/Io.v whose script is
+   exhausted (an accept-all Vec writer): same io::Result, same bytes; after any writes it holds their concatenation *)
+Theorem c08_translated_buffer_write : forall b w buf,
+  buf_rel b w ->
+  let '(b', r) := g_buffer_write b buf in
+  let '(w', r') := w_write w buf in
+  r = r' /\ buf_rel b' w'.
+Proof. exact buffer_write_simulates_writer. Qed.
+Theorem c08_translated_buffer_flush : forall b w,
+  buf_rel b w -> let '(b', r) := g_buffer_flush b in r = inl tt /\ buf_rel b' (w_flush w).
+Proof. exact buffer_flush_simulates_writer. Qed.
+Theorem c08_translated_buffer_contents : forall bufs,
+  g_buffer_as_bytes (fst (g_buffer_writes g_buffer_new bufs)) = concat bufs.
+Proof. exact buffer_new_as_bytes. Qed.
+
+(* `AutoStream::wincon` in this configuration (no legacy console): the raw stream comes back, no stream is built *)
+Theorem c08_translated_wincon_unavailable : forall cf raw, g_as_wincon cf raw = inr raw.
+Proof. exact g_as_wincon_eq. Qed.
